@@ -2,6 +2,7 @@ package pypi
 
 import (
 	"fmt"
+	"strconv"
 	"strings"
 )
 
@@ -88,7 +89,7 @@ func parseCompatibleRelease(version string) ([]*constraint, error) {
 		return nil, err
 	}
 
-	// ~=2.2 is equivalent to >=2.2, <3.0
+	// ~=2 has no release segment to drop; keep it as >=2, <3
 	if len(v.release) == 1 {
 		upperVersion := fmt.Sprintf("%d.0", v.release[0]+1)
 		return []*constraint{
@@ -97,16 +98,30 @@ func parseCompatibleRelease(version string) ([]*constraint, error) {
 		}, nil
 	}
 
-	// ~=1.4.2 is equivalent to >=1.4.2, <1.5.0
-	if len(v.release) >= 2 {
-		upperVersion := fmt.Sprintf("%d.%d.0", v.release[0], v.release[1]+1)
-		return []*constraint{
-			{operator: ">=", version: version},
-			{operator: "<", version: upperVersion},
-		}, nil
-	}
+	// ~=V.N is equivalent to >=V.N, ==V.*: the last release segment is dropped
+	// and the one before it incremented.
+	// ~=2.2 is >=2.2, <3   ~=1.4.5 is >=1.4.5, <1.5   ~=1.4.5.0 is >=1.4.5.0, <1.4.6
+	return []*constraint{
+		{operator: ">=", version: version},
+		{operator: "<", version: nextPrefix(v.epoch, v.release[:len(v.release)-1])},
+	}, nil
+}
 
-	return []*constraint{{operator: ">=", version: version}}, nil
+// nextPrefix returns the first release that does not start with the given
+// release prefix: (1, 4) -> "1.5"
+func nextPrefix(epoch int, prefix []int) string {
+	parts := make([]string, len(prefix))
+	for i, n := range prefix {
+		if i == len(prefix)-1 {
+			n++
+		}
+		parts[i] = strconv.Itoa(n)
+	}
+	next := strings.Join(parts, ".")
+	if epoch > 0 {
+		next = fmt.Sprintf("%d!%s", epoch, next)
+	}
+	return next
 }
 
 // parseWildcardConstraint handles wildcard constraints like ==1.2.* or !=1.2.*
